@@ -43,6 +43,34 @@ def install_float_extraction():
     F.extract_model = extract_model_floats
 
 # ---------------------------------------------------------------------------------------------------
+def run_batches(chk, ctx, makers, label):
+    """thorough tier in batches: generate -> run both drivers -> monitor / compare -> drop, so that peak memory stays bounded.
+    Alarms and disagreements go to the framework's lists (at most 3 alarms are kept per listed finding class)."""
+    import gc, hashlib, time
+    known_keys = {k for k, _ in F.load_findings().get(chk.pid, [])}
+    kept = {}; n = 0; nontriv = set(); hist = {}; t0 = time.time()
+    for make in makers:
+        cases = make()
+        if not cases: continue
+        ires, _ = F.run_batch(ctx['iexe'], cases)
+        mres = F.run_batch(ctx['mexe'], cases, chk.IN, chk.OUT)[0] if ctx['mexe'] is not None else {}
+        for c in cases:
+            io = ires.get(c.id, ('missing', [])); n += 1
+            for t in c.tags: hist[t] = hist.get(t, 0) + 1
+            if chk.nontrivial(c, io): nontriv.add(hashlib.sha256(F.case_text(c).encode()).digest()[:12])
+            for v in chk.monitor(c, io[0], io[1]):
+                key = chk.finding_key(c, v)
+                if key is not None and key in known_keys:
+                    kept[key] = kept.get(key, 0) + 1
+                    if kept[key] > 3: continue
+                ctx['alarms'].append((c, v))
+            if ctx['mexe'] is not None:
+                d = chk.compare(c, mres.get(c.id, ('missing', [])), io)
+                if d and len(ctx['disagreements']) < 40: ctx['disagreements'].append((c, d))
+        del cases, ires, mres; gc.collect()
+    ctx['extra'][label] = dict(evaluations=n, distinct_nontrivial=len(nontriv), known_finding_alarms=kept, input_distribution=hist,
+                               wall_s=round(time.time() - t0, 1))
+
 def known(p): return 100 <= p <= 10100
 
 class Ideal:
@@ -78,7 +106,8 @@ class C09(F.PropCheck):
     pid = 'C09'; gen_groups = ['RsConsts']; prop_file = 'Properties_C09'
     IN = {'CFG': 0, 'SET': 1, 'CB': 2, 'POKE': 3}
     OUT = {0: 'ST', 1: 'REPORT'}
-    quick_cases = 1500; thorough_cases = 60000
+    quick_cases = 1500; thorough_cases = 1000          # thorough: 1000 cases through the framework + 44 batches of 500 (extra_quick)
+    thorough_batches = 44; batch_size = 500
     trusted_extra = ['C09 driver harness/drv/c09.c: real supla_esp_gpio_init, rs_timer_cb, move_position, calibrate, get_current_position/_tilt, '
                      'set_relay; output pins written directly (SET), callback called directly at scripted times (own os_timer disarmed)',
                      'extraction: ExtrOCamlFloats + ExtrOCamlInt63, linked against coq-core.kernel (Float64, Uint63); host x86-64 SSE2 double arithmetic '
@@ -142,7 +171,13 @@ class C09(F.PropCheck):
             out.append(dt); t += dt
         return out, style
 
-    def gen_cases(self, rng, n, tier):
+    def extra_quick(self, ctx):
+        if ctx['tier'] != 'thorough' or ctx['iexe'] is None: return
+        import random
+        def maker(b): return lambda: self.gen_cases(random.Random(ctx['seed'] * 7919 + 104729 * (b + 1)), self.batch_size, 'thorough', prefix='b%d_' % b)
+        run_batches(self, ctx, [maker(b) for b in range(self.thorough_batches)], 'batched_thorough')
+
+    def gen_cases(self, rng, n, tier, prefix=''):
         cases = []
         for i in range(n):
             cfg = self.gen_cfg(rng, tier)
@@ -186,7 +221,7 @@ class C09(F.PropCheck):
                 cfg[0] = (2**32 - (before + rng.randrange(1, late))) % 2**32
                 if cfg[0] == 0: cfg[0] = 1
                 tags = [t for t in tags if t != 'boot-near-wrap'] + ['wrap-in-late-callback']
-            cases.append(F.Case('%s%d' % (tier[0], i), evs, tags))
+            cases.append(F.Case('%s%s%d' % (prefix, tier[0], i), evs, tags))
         # boundary of the case split `remaining time <= accumulated time` (and `time_delta > *time`) of move_position: one callback whose
         # interval equals the remaining time of the run exactly, one microsecond less, one more; half of them on (distance, travel time)
         # pairs for which the two-rounding product falls below the exact floor (then time_delta exceeds the accumulated time by one)
@@ -209,7 +244,7 @@ class C09(F.PropCheck):
             cfg = [rng.choice([1, rng.randrange(1, 2**32)]), F_ms, F_ms, tilt_ms, ttype, rng.choice([-1, 5, 100]), pos0, tilt0, 250000]
             evs = [('CFG', cfg, b''), ('CB', [10000], b''), ('SET', [d], b''), ('CB', [rpt + rng.choice([-1, 0, 0, 1])], b'')]
             evs += [('CB', [rng.choice([1000, 10000, 30000])], b'') for _ in range(rng.randrange(2, 12))]
-            cases.append(F.Case('%sB%d' % (tier[0], i), evs, ['clamp-boundary', 'float-below-floor' if want_below else 'float-exact', 'type%d' % ttype]))
+            cases.append(F.Case('%s%sB%d' % (prefix, tier[0], i), evs, ['clamp-boundary', 'float-below-floor' if want_below else 'float-exact', 'type%d' % ttype]))
         # the 10-minute rule across the counter wrap: motor energised for more than 600 s, coarse callbacks
         for i in range(max(2, n // 60)):
             fo = rng.choice([0, 0, 600000, 400000])
@@ -220,7 +255,7 @@ class C09(F.PropCheck):
             wrap_at = rng.randrange(1_000_000, 598_000_000)
             cfg[0] = (2**32 - wrap_at) % 2**32
             evs += [('CB', [dt], b'') for dt in dts]
-            cases.append(F.Case('%sT%d' % (tier[0], i), evs, ['ten-minute-rule', 'wrap-during-run', 'type0']))
+            cases.append(F.Case('%s%sT%d' % (prefix, tier[0], i), evs, ['ten-minute-rule', 'wrap-during-run', 'type0']))
         return cases
 
     # ---------------- monitor: the property text evaluated on the implementation trace (no Coq model involved)
